@@ -1246,6 +1246,12 @@ func (v *VC) genConvert(i *ssa.Convert, g string) {
 		v.define(i, v.val(i.X))
 	case fs == "Int" && ts == "Real":
 		v.define(i, fmt.Sprintf("(to_real %s)", v.val(i.X)))
+	case fs == "Real" && ts == "Int":
+		// float -> integer: a deterministic (uninterpreted) function of the float, within the target range
+		v.features["f2i"] = true
+		// (out-of-range conversions are implementation-defined in Go; the result is some value of the type)
+		v.define(i, fmt.Sprintf("(f2i %s)", v.val(i.X)))
+		v.assume(g, v.rangeFact(to, v.val(i)))
 	default:
 		v.declare(i)
 		v.note("conversion %s -> %s yields an arbitrary value", from, to)
